@@ -319,19 +319,55 @@ def vA : Nat := 1
 def vI : Nat := 2
 def vG : Nat := 3
 
-/-- parse the mini template syntax: literal characters and `{U}` `{A}` `{I}` `{G}` -/
-def parseTmplL : List Char → List Char → T
-  | acc, [] => if acc.isEmpty then [] else [Piece.lit acc.reverse]
-  | acc, '{' :: c :: '}' :: rest =>
-    let v := if c = 'U' then some vU else if c = 'A' then some vA else if c = 'I' then some vI else if c = 'G' then some vG else none
-    match v with
-    | some n => (if acc.isEmpty then [] else [Piece.lit acc.reverse]) ++ Piece.var n :: parseTmplL [] rest
-    | none => parseTmplL ('}' :: c :: '{' :: acc) rest
-  | acc, c :: rest => parseTmplL (c :: acc) rest
+/-- variable numbers of the spellings that hand the variable to a function (`print (x)`, `x | printf "%v"`): they print
+the same text as the plain spellings when the variable exists and `<nil>` instead of `<no value>` when it does not -/
+def vP (n : Nat) : Nat := n + 4
 
-def parseTmpl (s : String) : T := parseTmplL [] s.toList
+/-- what `text/template` prints for a variable that does not exist (a map without that key) -/
+def noValue : String := "<no value>"
+/-- … and what `print` / `printf "%v"` make of it -/
+def nilText : String := "<nil>"
 
-def usesVar (t : T) (n : Nat) : Bool := t.any fun p => match p with | Piece.var m => m == n | _ => false
+/-- white space as `text/template`'s trim markers understand it -/
+def isTmplSpace (c : Char) : Bool := c = ' ' || c = '\t' || c = '\r' || c = '\n'
+
+/-- what a placeholder letter stands for: `U A I G` are variables; `R S X` are calls of the template functions pandora
+registers with constant arguments, each with a single possible printed result (`randInt 7 8` ↦ `7`,
+`randString 3 "z"` ↦ `zzz`, `uuid` ↦ a version-4 UUID, which the recorder prints as `UUID`) -/
+def placeholder (c : Char) (d : Char := '0') : Option (Piece Char) :=
+  let cls := fun (n : Nat) => if d = '3' || d = '4' || d = '6' then vP n else n
+  if c = 'U' then some (Piece.var (cls vU)) else if c = 'A' then some (Piece.var (cls vA)) else if c = 'I' then some (Piece.var (cls vI))
+  else if c = 'G' then some (Piece.var (cls vG))
+  else if c = 'R' then some (Piece.lit ['7']) else if c = 'S' then some (Piece.lit ['z', 'z', 'z'])
+  else if c = 'X' then some (Piece.lit ['U', 'U', 'I', 'D']) else none
+
+def flushLit (acc : List Char) : T := if acc.isEmpty then [] else [Piece.lit acc.reverse]
+
+/-- parse the mini template syntax: literal characters and placeholders `{L}` / `{Ld}` (`L` a placeholder letter, `d` a
+digit naming the way the action is SPELLED in `text/template` syntax by the harness: plain, spaces inside the braces,
+`print`, a pipeline, a nested `define`/`template`, `if`/`else`, a `$variable`, a comment + parentheses …). All spellings
+print the same text; spelling `2` (`{{- x}}`) also trims the white space at the end of the literal text before the
+action, spelling `9` (`{{x -}}`) the white space at the start of the literal text after it. `trim` = the previous action
+asked for the following white space to be dropped; `acc` = literal text read so far, reversed. -/
+def parseTmplL : Bool → List Char → List Char → T
+  | _, acc, [] => flushLit acc
+  | _, acc, '{' :: c :: '}' :: rest =>
+    match placeholder c with
+    | some p => flushLit acc ++ p :: parseTmplL false [] rest
+    | none => parseTmplL false ('{' :: acc) (c :: '}' :: rest)
+  | _, acc, '{' :: c :: d :: '}' :: rest =>
+    match placeholder c d with
+    | some p =>
+      if d.isDigit then
+        flushLit (if d = '2' then acc.dropWhile isTmplSpace else acc) ++ p :: parseTmplL (d = '9') [] rest
+      else parseTmplL false ('{' :: acc) (c :: d :: '}' :: rest)
+    | none => parseTmplL false ('{' :: acc) (c :: d :: '}' :: rest)
+  | trim, acc, c :: rest =>
+    if trim && isTmplSpace c then parseTmplL true acc rest else parseTmplL false (c :: acc) rest
+
+def parseTmpl (s : String) : T := parseTmplL false [] s.toList
+
+def usesVar (t : T) (n : Nat) : Bool := t.any fun p => match p with | Piece.var m => m == n || m == vP n | _ => false
 
 structure CallDef where
   name : String
@@ -420,19 +456,27 @@ inductive StepResult where
   | failed (w : World) (o : Outcome)        -- the scenario shot ends here
   | unmodelled (why : String)
 
-def needsMissing (cd : CallDef) (sv : ShotVars) : Bool :=
-  let ts := cd.md.map (·.2) ++ cd.payload.map (·.2.2)
-  (ts.any (usesVar · vU) && !cd.pre) || (ts.any (usesVar · vA) && sv.a.isNone) || (ts.any (usesVar · vI) && sv.i.isNone)
+/-- the variables a step's templates see: `u` = the user its own preprocessor drew (none without a preprocessor), the
+token / user id the shot's `auth` step returned (none before it, after a failed one, and inside the `auth` step itself:
+`requestVars[step.Name]` is replaced by an empty map when a step begins), the global constant. A variable that does
+not exist prints as `<no value>` (`<nil>` through `print`). -/
+def mkVars (u : Option String) (sv : ShotVars) (g : String) : Vars Char :=
+  [(vU, (u.getD noValue).toList), (vA, (sv.a.getD noValue).toList), (vI, (sv.i.getD noValue).toList), (vG, g.toList),
+   (vP vU, (u.getD nilText).toList), (vP vA, (sv.a.getD nilText).toList), (vP vI, (sv.i.getD nilText).toList), (vP vG, g.toList)]
+
+/-- the auth results visible to a step: none inside the step named `auth` itself -/
+def svFor (cd : CallDef) (sv : ShotVars) : ShotVars := if cd.name == "auth" then { a := none, i := none } else sv
 
 /-- `shootStep` for gun `gun` on call definition `cd` inside scenario `scn` -/
 def shootStep (v : Variant) (c : Cfg) (gun : Nat) (scn : String) (cd : CallDef) (w : World) (sv : ShotVars) : StepResult :=
   if cd.pre && c.users.isEmpty then .unmodelled "no-users" else
-  if needsMissing cd sv then .unmodelled "undefined-variable" else
   -- preprocessor: u = source.users[next]
   let owner := iterOwner c cd
   let drawn := (assocGet w.iters owner).getD 0
-  let (u, iters) := if cd.pre then (c.users.getD (drawn % c.users.length) "", assocSet w.iters owner (drawn + 1)) else ("", w.iters)
-  let vars : Vars Char := [(vU, u.toList), (vA, (sv.a.getD "").toList), (vI, (sv.i.getD "").toList), (vG, c.g.toList)]
+  let ui : Option String × List (String × Nat) :=
+    if cd.pre then (some (c.users.getD (drawn % c.users.length) ""), assocSet w.iters owner (drawn + 1)) else (none, w.iters)
+  let iters := ui.2
+  let vars : Vars Char := mkVars ui.1 (svFor cd sv) c.g
   -- templater: payload (pure), metadata (shared map + per-gun cache)
   let payload := cd.payload.map fun (fname, kind, t) => (fname, pvalOf kind (String.ofList (render vars t)))
   let cells := (assocGet w.cells cd.name).getD []
